@@ -338,13 +338,13 @@ func (r *checkRun) finish(partial bool) int {
 	ev := map[string]interface{}{}
 	var (
 		states, transitions, validated, disagreements, paths, cut, unsup, oblig, disch int64
-		queries, qsat, qunsat, qunknown                                              int
-		solverTime                                                                   float64
-		samples                                                                      []interface{}
-		unitsEv                                                                      []interface{}
-		funcs                                                                        = map[string]int64{}
-		stubs                                                                        = map[string]int64{}
-		vioCount                                                                     int
+		queries, qsat, qunsat, qunknown                                                int
+		solverTime                                                                     float64
+		samples                                                                        []interface{}
+		unitsEv                                                                        []interface{}
+		funcs                                                                          = map[string]int64{}
+		stubs                                                                          = map[string]int64{}
+		vioCount                                                                       int
 	)
 	for _, u := range r.units {
 		if u.loadErr != nil {
@@ -385,7 +385,9 @@ func (r *checkRun) finish(partial bool) int {
 		for k, c := range rep.CutReasons {
 			inconclusive = append(inconclusive, fmt.Sprintf("%s: %d path(s) cut: %s", u.spec.Name, c, k))
 		}
-		if rep.TimedOut {
+		if rep.StoppedAfterViolation {
+			inconclusive = append(inconclusive, u.spec.Name+": exploration stopped 60 s after the last new violation fingerprint; the bound was not exhausted")
+		} else if rep.TimedOut {
 			inconclusive = append(inconclusive, u.spec.Name+": exploration stopped by budget before the bound was exhausted")
 		}
 		for _, l := range u.vacuous {
@@ -428,10 +430,10 @@ func (r *checkRun) finish(partial bool) int {
 		unitsEv = append(unitsEv, map[string]interface{}{
 			"unit": u.spec.Name, "clause": u.spec.Clause, "entry": u.spec.Entry, "package": u.spec.Dir,
 			"bounds": map[string]interface{}{"params": u.tier.Params, "unwind": u.opt.Unwind, "preemptions": u.opt.Preempt, "solver_timeout_ms": u.opt.TimeoutMs, "max_concretisations": u.opt.MaxConc},
-			"paths": rep.Paths, "paths_completed": rep.PathsDone, "paths_assumption_false": rep.PathsAssume, "paths_cut_by_bound": rep.PathsCut,
+			"paths":  rep.Paths, "paths_completed": rep.PathsDone, "paths_assumption_false": rep.PathsAssume, "paths_cut_by_bound": rep.PathsCut,
 			"inconclusive_paths": rep.PathsUnsup, "inconclusive_reasons": rep.UnsupReasons, "cut_reasons": rep.CutReasons,
 			"states": rep.States, "transitions": rep.Transitions, "obligations": rep.Obligations, "discharged": rep.Discharged,
-			"queries": map[string]int{"total": rep.Solver.Queries, "sat": rep.Solver.Sat, "unsat": rep.Solver.Unsat, "unknown": rep.Solver.Unknown, "errors": rep.Solver.Errors, "fallbacks": rep.Solver.Fallbacks},
+			"queries":         map[string]int{"total": rep.Solver.Queries, "sat": rep.Solver.Sat, "unsat": rep.Solver.Unsat, "unknown": rep.Solver.Unknown, "errors": rep.Solver.Errors, "fallbacks": rep.Solver.Fallbacks},
 			"solver_backends": rep.Solver.ByBackend, "solver_time_s": round2(rep.Solver.Time.Seconds()), "wall_s": round2(rep.Wall.Seconds()),
 			"instructions_executed": rep.Steps, "reach_labels": rep.Reach, "vacuous_labels": u.vacuous,
 			"native_validation": u.natives, "replay_mode": replayMode(u.spec), "init_failures": rep.InitFailures,
@@ -496,11 +498,11 @@ func (r *checkRun) finish(partial bool) int {
 	cov := map[string]interface{}{
 		"states": states, "transitions": transitions, "traces_validated_against_impl": validated, "samples": samples,
 		"encoder_disagreements": disagreements,
-		"paths": paths, "paths_cut_by_bound": cut, "inconclusive_paths": unsup,
+		"paths":                 paths, "paths_cut_by_bound": cut, "inconclusive_paths": unsup,
 		"obligations": oblig, "discharged": disch,
-		"queries": map[string]int{"total": queries, "sat": qsat, "unsat": qunsat, "unknown": qunknown},
+		"queries":       map[string]int{"total": queries, "sat": qsat, "unsat": qunsat, "unknown": qunknown},
 		"solver_time_s": round2(solverTime), "functions_encoded": fenc, "stubs_used": stubList, "units": unitsEv,
-		"exhaustive": cut == 0 && unsup == 0 && len(inconclusive) == 0,
+		"exhaustive":   cut == 0 && unsup == 0 && len(inconclusive) == 0,
 		"inconclusive": inconclusive, "known_findings_reproduced": knownHit, "new_violations": newVio, "unconfirmed_counterexamples": unconfirmed,
 		"rule": "states = nodes of the explored decision tree (symbolic branches, choices, concretisations); transitions = its edges; each completed path is one formula covering every value of the symbolic variables that follows it",
 	}
